@@ -44,7 +44,7 @@ Qed.
 (* constructor calls *)
 Lemma ctor_loop_sound : forall S flds xs rs, args_rel S xs rs ->
   existsb is_positional rs = false ->
-  (forall m fld t, In (fld, t) flds -> ground t = true) ->
+  (forall fld t, In (fld, t) flds -> ground t = true) ->
   forall prov prov', ctor_loop flds rs prov = ([], prov') ->
   fields_typed G R S flds xs /\ NoDup (arg_names xs) /\
   (forall n, In n (arg_names xs) -> ~ In n prov) /\
@@ -52,7 +52,6 @@ Lemma ctor_loop_sound : forall S flds xs rs, args_rel S xs rs ->
 Proof.
   induction 1; intros Hpos Hfl prov prov' Hl.
   - simpl in Hl. inversion Hl; subst. simpl. repeat split; try constructor; try tauto.
-    intros [H|[]]; auto.
   - simpl in Hpos. apply orb_false_iff in Hpos as [Hp Hpos].
     destruct nm as [n|]; [|discriminate]. simpl in Hl.
     destruct (mem n prov) eqn:Em.
@@ -63,7 +62,7 @@ Proof.
     inversion Hl; subst. simpl in H2. nils. subst.
     destruct (IHargs_rel Hpos Hfl _ _ El) as (Hft & Hnd & Hdis & Hprov).
     simpl. repeat split.
-    + econstructor; eauto. apply H; auto. apply assoc_In in Ef. eapply (Hfl n); eauto.
+    + econstructor; eauto. apply H; auto. apply assoc_In in Ef. eapply Hfl; eauto.
     + constructor; auto. intros Hin. apply (Hdis n Hin). now left.
     + intros n0 [->|Hin].
       * intros Hc. apply In_mem in Hc. congruence.
@@ -81,7 +80,7 @@ Proof.
   intros S i flds xs rs Hr Hfl He. unfold ctor_events in He.
   destruct (existsb is_positional rs) eqn:Ep; [discriminate|].
   destruct (ctor_loop flds rs []) as [e prov] eqn:El. nils. subst.
-  destruct (ctor_loop_sound S flds xs rs Hr Ep (fun _ => Hfl) [] prov El) as (H1 & H2 & _ & H4).
+  destruct (ctor_loop_sound S flds xs rs Hr Ep Hfl [] prov El) as (H1 & H2 & _ & H4).
   repeat split; auto.
   intros f Hf. apply in_map_iff in Hf as ([f' t] & <- & Hin). simpl.
   assert (Hm : mem f' prov = true).
@@ -119,6 +118,11 @@ Proof.
     eapply T_Logic; eauto.
 Qed.
 
+Lemma chka_cons : forall fx G0 R0 S nm a r,
+  check_args fx G0 R0 S (ACons nm a r) =
+  (let (t, ev) := check_expr fx G0 R0 S a in (nm, eid a, t, ev) :: check_args fx G0 R0 S r).
+Proof. reflexivity. Qed.
+
 Lemma pair_eq : forall A B (a a' : A) (b b' : B), (a, b) = (a', b') -> a = a' /\ b = b'.
 Proof. intros. inversion H; auto. Qed.
 
@@ -132,43 +136,43 @@ Proof.
     + apply compat_bool in Hc; auto; subst; constructor.
     + apply compat_str in Hc; auto; subst; constructor.
     + destruct t; simpl in Hc; try discriminate. constructor. auto.
-  - (* EVar *) intros i x S Hg ct H t Ht Hc. simpl in H.
+  - (* EVar *) intros i x S Hg ct H t Ht Hc. cbn in H.
     destruct (lookup S x) as [[t0 m]|] eqn:El; inversion H; subst.
     assert (ground ct = true) by (eapply lookup_ground; eauto).
     assert (ct = t) by (apply compat_ground_eq; auto). subst. econstructor; eauto.
-  - (* EUn *) intros i o a IH S Hg ct H t Ht Hc. simpl in H.
+  - (* EUn *) intros i o a IH S Hg ct H t Ht Hc. cbn in H.
     destruct (chk S a) as [ta ea] eqn:Ea. destruct o.
     + destruct (compat ta TInt) eqn:Ec; inversion H; subst; nils.
       apply compat_int in Hc; auto; subst. constructor. eapply IH; eauto.
     + inversion H; subst. nils. subst. apply compat_bool in Hc; auto; subst. constructor. eapply IH; eauto.
-  - (* EBin *) intros i o a IHa b IHb S Hg ct H t Ht Hc. simpl in H.
+  - (* EBin *) intros i o a IHa b IHb S Hg ct H t Ht Hc. cbn in H.
     destruct (chk S a) as [ta ea] eqn:Ea. destruct (chk S b) as [tb eb] eqn:Eb.
     destruct (bin_ty fixed i o ta tb) as [t3 e3] eqn:E3. inversion H; subst. nils. subst.
     eapply bin_sound; eauto.
     + intros; eapply IHa; eauto.
     + intros; eapply IHb; eauto.
-  - (* ECall *) intros i ci f xs IH S Hg ct H t Ht Hc. simpl in H.
+  - (* ECall *) intros i ci f xs IH S Hg ct H t Ht Hc. cbn in H.
     destruct (assoc f (g_funs G)) as [[ps r]|] eqn:Ef; [|discriminate].
     inversion H; subst. nils.
     destruct HG as [HGf _]. destruct (HGf _ _ _ (assoc_In _ _ _ _ Ef)) as [Hps Hr].
     assert (ct = t) by (apply compat_ground_eq; auto). subst.
     econstructor; eauto. eapply args_rel_typed; eauto.
-  - (* EPrint *) intros i xs IH S Hg ct H t Ht Hc. simpl in H. inversion H; subst.
+  - (* EPrint *) intros i xs IH S Hg ct H t Ht Hc. cbn in H. inversion H; subst.
     apply compat_unit in Hc; auto; subst. constructor. eapply args_rel_any; eauto.
-  - (* ECtor *) intros i ci m xs IH S Hg ct H t Ht Hc. simpl in H.
+  - (* ECtor *) intros i ci m xs IH S Hg ct H t Ht Hc. cbn in H.
     destruct (assoc m (g_models G)) as [flds|] eqn:Em; [|discriminate].
     inversion H; subst. nils.
     assert (TNamed m = t) by (apply compat_ground_eq; auto). subst.
     destruct HG as [_ HGm].
-    destruct (ctor_sound S i flds xs (chka S xs)) as (H1 & H2 & H3); auto.
+    destruct (ctor_sound S i flds xs (chka S xs)) as (F1 & F2 & F3); auto.
     { intros fld t0 Hin. eapply HGm; eauto. eapply assoc_In; eauto. }
     econstructor; eauto.
-  - (* EVariant *) intros i bi en v S Hg ct H t Ht Hc. simpl in H.
+  - (* EVariant *) intros i bi en v S Hg ct H t Ht Hc. cbn in H.
     destruct (assoc en (g_enums G)) as [vs|] eqn:Ee; [|discriminate].
     destruct (mem v vs) eqn:Em; inversion H; subst.
     assert (TNamed en = t) by (apply compat_ground_eq; auto). subst.
     econstructor; eauto. apply mem_In; auto.
-  - (* EField *) intros i a IH fld S Hg ct H t Ht Hc. simpl in H.
+  - (* EField *) intros i a IH fld S Hg ct H t Ht Hc. cbn in H.
     destruct (chk S a) as [ta ea] eqn:Ea.
     destruct (field_ty G i ta fld) as [t' e2] eqn:Ef. inversion H; subst. nils. subst.
     unfold field_ty in Ef. destruct ta; try discriminate.
@@ -180,32 +184,36 @@ Proof.
       assert (ct = t) by (apply compat_ground_eq; auto). subst.
       econstructor; eauto. eapply IH; eauto. simpl. apply N.eqb_refl.
     + destruct (assoc n (g_enums G)) as [vs|]; [destruct (mem fld vs)|]; discriminate.
-  - (* ETry *) intros i a IH S Hg ct H t Ht Hc. simpl in H.
+  - (* ETry *) intros i a IH S Hg ct H t Ht Hc. cbn -[cur_err] in H.
     destruct (chk S a) as [ta ea] eqn:Ea.
     destruct ta; try (inversion H; subst; nils; fail).
-    unfold cur_err in H. destruct R eqn:ER; try (simpl in H; inversion H; subst; nils; fail).
+    destruct (cur_err R) as [ee|] eqn:Ec; [|inversion H; subst; nils; discriminate].
     inversion H; subst. nils. subst.
-    simpl in HR. apply andb_true_iff in HR as [HR1 HR2].
-    eapply T_Try with (e := t1) (t' := t0); eauto.
-    eapply IH; eauto. simpl. apply andb_true_iff; auto.
-    simpl. apply andb_true_iff; auto.
-  - (* ESome *) intros i a IH S Hg ct H t Ht Hc. simpl in H.
+    unfold cur_err in Ec. destruct R as [| | | | |?|t' e'|] eqn:ER; try discriminate.
+    inversion Ec; subst e'. rewrite <- ER in *.
+    assert (Hee : ground ee = true).
+    { rewrite ER in HR. simpl in HR. apply andb_true_iff in HR as [_ ?]; auto. }
+    eapply T_Try with (e := ee) (t' := t'); eauto.
+    eapply IH; eauto.
+    + simpl. apply andb_true_iff; auto.
+    + simpl. apply andb_true_iff; auto.
+  - (* ESome *) intros i a IH S Hg ct H t Ht Hc. cbn in H.
     destruct (chk S a) as [ta ea] eqn:Ea. inversion H; subst.
     destruct t; simpl in Hc; try discriminate. constructor. eapply IH; eauto.
-  - (* EOk *) intros i a IH S Hg ct H t Ht Hc. simpl in H.
+  - (* EOk *) intros i a IH S Hg ct H t Ht Hc. cbn in H.
     destruct (chk S a) as [ta ea] eqn:Ea. inversion H; subst.
     destruct t; simpl in Hc; try discriminate.
     simpl in Ht. apply andb_true_iff in Ht as [? ?]. apply andb_true_iff in Hc as [? ?].
     constructor; auto. eapply IH; eauto.
-  - (* EErr *) intros i a IH S Hg ct H t Ht Hc. simpl in H.
+  - (* EErr *) intros i a IH S Hg ct H t Ht Hc. cbn in H.
     destruct (chk S a) as [ta ea] eqn:Ea. inversion H; subst.
     destruct t; simpl in Hc; try discriminate.
     simpl in Ht. apply andb_true_iff in Ht as [? ?].
     constructor; auto. eapply IH; eauto.
   - (* ANil *) intros S Hg H. simpl. constructor.
-  - (* ACons *) intros nm a IHa r IHr S Hg H. simpl in *.
-    destruct (chk S a) as [ta ea] eqn:Ea. simpl in H. unfold args_evs in H. simpl in H.
-    nils. subst. constructor.
+  - (* ACons *) intros nm a IHa r IHr S Hg H. rewrite chka_cons in *.
+    destruct (chk S a) as [ta ea] eqn:Ea. unfold args_evs in H. simpl in H.
+    apply app_eq_nil in H as [H1 H2]. subst ea. constructor.
     + intros t Ht Hc. eapply IHa; eauto.
     + apply IHr; auto.
 Qed.
